@@ -79,6 +79,7 @@ var c11Ops = []string{
 	"m1 joins $share/g/a (q1 id11)", "m2 joins $share/g/a (q0 id22)", "m3 joins $share/g/a (q2 id33)", "m1 joins $share/h/a (q2 id14)", "m2 subscribes a (q1 id25)", "m3 joins $share/g/# (q1 id36)",
 	"m1 UNSUBSCRIBE $share/g/a", "m2 DISCONNECT (session ends)", "m3 taken over with clean start", "TerminateSession(m1)", "m3 closes and its session expires",
 	"publish a", "publish $SYS/a",
+	"m1 DISCONNECT with Session Expiry 0 (its session, connected with expiry 100, ends)",
 }
 
 type c11Member struct {
@@ -193,6 +194,17 @@ func c11WireBody(seq []int, report func(rule, class, want, got string), applied 
 				m.cl.Close()
 				vsched.Settle()
 				vsched.Advance(26 * time.Second)
+				m.online, m.subs = false, map[string]c11Sub{}
+			case 13:
+				m := ms[0]
+				if !m.online {
+					ok = false
+					break
+				}
+				m.cl.Send(&refmqtt.Packet{Type: refmqtt.DISCONNECT, Props: &refmqtt.Props{SessionExpiry: harness.U32(0)}})
+				vsched.Settle()
+				m.cl.Close()
+				vsched.Settle()
 				m.online, m.subs = false, map[string]c11Sub{}
 			case 11, 12:
 				topic := "a"
